@@ -118,6 +118,11 @@ func structFieldsDeep(t types.Type) []*types.Var {
 			out = append(out, f)
 			if f.Embedded() {
 				walk(f.Type())
+			} else if _, isStruct := f.Type().Underlying().(*types.Struct); isStruct {
+				// a nested (by-value) struct is part of the same object: its fields are state of the mocker too
+				if nt, isNamed := f.Type().(*types.Named); isNamed && nt.Obj().Pkg() != nil && strings.HasPrefix(nt.Obj().Pkg().Path(), Mod) {
+					walk(f.Type())
+				}
 			}
 		}
 	}
